@@ -211,3 +211,7 @@ def edits():
           pass
   return [('setattr', set_first), ('delattr', del_first), ('tags', tag_all), ('index', index_edit),
           ('clear_tags', clear_tags), ('set_tags', set_tags)]
+
+
+def fb2(x=0, y=1, z=2):
+  return ('fb2', x, y, z)
